@@ -111,6 +111,22 @@ func CastAlphabet(dt DT) []uint64 {
 		}
 		out = append(out, SpecialInts(dt)...)
 		out = append(out, EncI(dt, 16777217), EncI(dt, 33554435), EncI(dt, 9007199254740993), EncI(dt, 123456789))
+		// rounding witnesses: just above / below the midpoint between two neighbouring float32 (float64) values -
+		// a conversion that rounds twice (through a wider or narrower float) lands on the other neighbour
+		for k := uint(25); k < bits-1; k++ {
+			for _, half := range []uint{24, 53} {
+				if k <= half {
+					continue
+				}
+				for _, d := range []int64{-1, 1} {
+					v := int64(1)<<k + int64(1)<<(k-half) + d
+					out = append(out, EncI(dt, v), EncI(dt, v+int64(1)<<(k-half+1)))
+					if dt.IsSigned() {
+						out = append(out, EncI(dt, -v))
+					}
+				}
+			}
+		}
 		return out
 	}
 }
